@@ -34,9 +34,9 @@ var errTransfer = errors.New("transfer broke")
 // StatesFor lists the named states the harness can drive a channel of a role into.
 func StatesFor(r Role) []string {
 	if r.Created() {
-		return []string{"requested", "accepted", "ongoing", "ongoing-data", "two-vouchers", "self-paused", "other-paused", "transfer-finished", "responder-completed", "responder-finalizing", "paused-responder-completed", "paused-responder-finalizing", "completed", "cancelled", "failed"}
+		return []string{"requested", "accepted", "ongoing", "ongoing-data", "two-vouchers", "restarted", "self-paused", "other-paused", "transfer-finished", "responder-completed", "responder-finalizing", "paused-responder-completed", "paused-responder-finalizing", "completed", "cancelled", "failed"}
 	}
-	return []string{"accepted", "ongoing", "ongoing-data", "two-vouchers", "self-paused", "other-paused", "limit-paused", "finalizing", "completed", "cancelled", "failed"}
+	return []string{"accepted", "ongoing", "ongoing-data", "two-vouchers", "restarted", "self-paused", "other-paused", "limit-paused", "finalizing", "completed", "cancelled", "failed"}
 }
 
 // IsTerminalState tells whether the named state is terminal.
@@ -110,6 +110,25 @@ func Setup(n *Node, r Role, state string, opts ...datatransfer.TransferOption) d
 			vr, _ := message.VoucherRequest(chid.ID, &fv)
 			n.RecvRequest(doubles.PeerB, vr)
 		}
+	case "restarted":
+		// some data moved, then the channel was restarted by its initiator and the restart was accepted
+		ongoing()
+		data(1, 10)
+		if r.Created() {
+			_ = n.Mgr.RestartDataTransferChannel(ctx, chid)
+			mc.Wait()
+			n.RecvResponse(doubles.PeerB, mustResp(message.RestartResponse(chid.ID, true, false, nil)))
+		} else {
+			ov := doubles.Voucher("T", "v")
+			if r.Pull() {
+				_, _ = h.OnRequestReceived(chid, doubles.Recode(NewReq(uint64(chid.ID), true, true, &ov)).(datatransfer.Request))
+				mc.Wait()
+			} else {
+				n.RecvRequest(doubles.PeerB, NewReq(uint64(chid.ID), true, false, &ov))
+			}
+		}
+		h.OnTransferInitiated(chid)
+		mc.Wait()
 	case "self-paused":
 		ongoing()
 		_ = n.Mgr.PauseDataTransferChannel(ctx, chid)
@@ -181,7 +200,7 @@ func ExpectStatus(r Role, state string) datatransfer.Status {
 		return datatransfer.Requested
 	case "accepted":
 		return datatransfer.Queued
-	case "ongoing", "ongoing-data", "two-vouchers", "self-paused", "other-paused", "limit-paused":
+	case "ongoing", "ongoing-data", "two-vouchers", "restarted", "self-paused", "other-paused", "limit-paused":
 		return datatransfer.Ongoing
 	case "finalizing":
 		return datatransfer.Finalizing
